@@ -85,7 +85,18 @@ Frags == <<
   <<59>>,   \* 60 ;
   <<60,112,32,116,105,116,108,101,61>>,   \* 61 <p title=
   <<60,115,99,114,105,112,116,32,115,114,99,61,34>>,   \* 62 <script src="
-  <<60,97,32,104,114,101,102,61,39>>    \* 63 <a href='
+  <<60,97,32,104,114,101,102,61,39>>,   \* 63 <a href='
+  \* ---- fragments of Markdown files (MC_AEMd); MC_AEProduct never uses them
+  <<35,32>>,   \* 64 `# `
+  <<10,10>>,   \* 65 blank line
+  <<32,32,32,32>>,   \* 66 four spaces
+  <<9>>,   \* 67 tab
+  <<62,32>>,   \* 68 `> `
+  <<45,32>>,   \* 69 `- `
+  <<96,96,96,10>>,   \* 70 a fence line ``` + newline
+  <<93,40>>,   \* 71 ](
+  <<104,116,116,112,58,47,47,101,47>>,   \* 72 http://e/
+  <<95>>    \* 73 _
 >>
 
 \* ast.Context values (ast/ast.go) -> names used by the specifications
